@@ -45,6 +45,7 @@ pub fn run_check(context: &CheckContext) -> CheckOutcome {
     if !outcome.violations.is_empty() { return outcome; }
     if context.property == "C14" { return run_c14(context, outcome); }
     if context.property == "C12" { return run_c12(context, outcome); }
+    if matches!(context.property.as_str(), "C02" | "C11" | "C13" | "C15" | "C18") { return run_conc_check(context, outcome); }
     let campaigns = seq_campaigns(&context.property);
     if !campaigns.is_empty() { outcome.assumptions.extend(seq_assumptions()); }
     for campaign in campaigns {
@@ -52,6 +53,73 @@ pub fn run_check(context: &CheckContext) -> CheckOutcome {
         outcome.reports.push(report);
         if let Some(violation) = violation {
             outcome.violations.push(violation);
+            break;
+        }
+    }
+    if outcome.violations.is_empty() && matches!(context.property.as_str(), "C01" | "C05") { return run_conc_check(context, outcome); }
+    outcome
+}
+
+pub struct ConcCampaign {
+    pub name: &'static str,
+    pub profile: crate::conc::ConcProfile,
+    pub cases_quick: u64,
+    pub cases_thorough: u64,
+    pub nt: crate::conc::ConcNt,
+    pub rule: &'static str,
+}
+
+pub fn conc_campaigns(property: &str) -> Vec<ConcCampaign> {
+    use crate::conc::ConcProfile::*;
+    match property {
+        "C01" => vec![ConcCampaign { name: "conc-monitor", profile: General, cases_quick: 500, cases_thorough: 3000, nt: |s| s.monitor_samples > 0 && s.evicted_or_rejected,
+            rule: "generated concurrent programs (2-6 threads, 1-6 overlapping keys, queue 1-8, clock thread, delay injection) with a monitor thread spinning on total_weight_used() for the whole run; weight-raising upserts are never generated (known finding F5); non-trivial = the monitor sampled and at least one put was refused for space (the cache was under pressure)" }],
+        "C05" => vec![ConcCampaign { name: "conc-quiescence", profile: General, cases_quick: 800, cases_thorough: 6000, nt: |s| s.unawaited_same_key,
+            rule: "generated concurrent programs racing the same keys; quiescence is constructed (all acknowledgements awaited, clock frozen, two sweeps waited for) and the physical snapshot must be a bijection store ids <-> charged ids with a matching total; non-trivial = two writes of one key where the second was issued before the first was acknowledged" }],
+        "C02" => vec![ConcCampaign { name: "conc-reads", profile: General, cases_quick: 1200, cases_thorough: 10_000, nt: |s| s.overlapping_read_write && s.read_after_completed_overwrite,
+            rule: "generated concurrent programs, every write carries a unique token (key, thread, op); all 7 read variants; pressure in 3 of 4 configs; hash functions default/identity/constant/mod 2; history checker: value decodes to the key, was written by a write that began before the read ended and was not refused, and no overwrite/delete ordered after that write had completed before the read began; non-trivial = a read overlapped a write of its key AND a value-returning read followed a completed write of that key" }],
+        "C11" => vec![ConcCampaign { name: "conc-bursts", profile: Bursts, cases_quick: 800, cases_thorough: 8000, nt: |s| s.queue_full_sends && s.concurrent_in_flight,
+            rule: "generated bursts of unawaited writes from 1-8 threads, queue size 1/2/3/8, worker and senders delayed by injection; trace checker: every queued command executed exactly once, executions never overlap, per-thread and real-time cross-thread order preserved, statuses match; when the last acknowledgement of a thread completes all earlier ones are complete; non-trivial = a send waited on a full queue AND two threads had commands in flight at once" }],
+        "C13" => vec![ConcCampaign { name: "conc-shutdown", profile: Shutdown, cases_quick: 1000, cases_thorough: 10_000, nt: |s| s.shutting_down_acks >= 1 && s.real_acks >= 1,
+            rule: "generated concurrent programs containing shutdown() calls anywhere, queue 1-8, unawaited writes in flight, delays between the steps of shutdown() and at the worker; non-trivial = at least one acknowledgement ended ShuttingDown and at least one with a real outcome" }],
+        "C15" => vec![ConcCampaign { name: "conc-access-accounting", profile: Reads, cases_quick: 800, cases_thorough: 6000, nt: |s| s.threads >= 2 && s.handovers >= 1,
+            rule: "generated read workloads from 1-16 threads over all read variants, pool in {1,2,3,32}, buffer in {1,2,3,64}, consumer free / stopped / stopped-then-released via the gate hook; at quiescence hits == buffered + AccessAdded + AccessDropped etc.; non-trivial = >= 2 reader threads and >= 1 buffer hand-over" }],
+        "C18" => vec![ConcCampaign { name: "conc-deadlock", profile: Deadlock, cases_quick: 900, cases_thorough: 10_000, nt: |s| s.threads >= 3 && s.distinct_sites_delayed >= 2 && s.sweeps_during_run,
+            rule: "generated concurrent programs with maximal lock sharing (2 shards, queue 1, pool 1, buffer 1, 1-3 keys, up to 12 threads, TTL upserts, evictions, sweeps, get_ref guards held without call-back) and delay injection after lock acquisition sites; a case is blocked when no call returned and no acknowledgement completed for the stall window while the threads consumed no CPU; non-trivial = >= 3 threads, >= 2 distinct sites delayed, clock thread driving sweeps" }],
+        _ => Vec::new(),
+    }
+}
+
+fn run_conc_check(context: &CheckContext, mut outcome: CheckOutcome) -> CheckOutcome {
+    use crate::conc::*;
+    let thorough = context.tier == "thorough";
+    outcome.assumptions.extend(vec![
+        "CONC: programs are generated deterministically from the seed, but their execution depends on OS scheduling; each program is executed several times; interleavings are sampled, widened by delay injection at hook sites, never enumerated".to_string(),
+        "history checkers are one-directional (an absent value is always allowed) and use stamps from one global atomic counter taken before and after each call".to_string(),
+        "a violation is reported with the observed failing history in the replay file; replay re-executes the program repeatedly and also re-checks the stored history".to_string(),
+    ]);
+    for campaign in conc_campaigns(&context.property) {
+        let cases = if thorough { campaign.cases_thorough } else { campaign.cases_quick };
+        let repeats = if thorough { 6 } else { 3 };
+        let stall = std::time::Duration::from_secs(if thorough { 30 } else { 10 });
+        let property = context.property.clone();
+        let nt = campaign.nt;
+        let failing_history: std::sync::Arc<std::sync::Mutex<Option<(u64, History)>>> = std::sync::Arc::new(std::sync::Mutex::new(None));
+        let sink = failing_history.clone();
+        let run_case: std::sync::Arc<dyn Fn(&ConcCase) -> CaseResult + Send + Sync> = std::sync::Arc::new(move |case: &ConcCase| {
+            let (result, history) = conc_case_result(case, &property, repeats, stall, nt);
+            if let Some(history) = history { *sink.lock().unwrap() = Some((case_hash(case), history)); }
+            result
+        });
+        let profile = campaign.profile;
+        let (report, found) = run_campaign_with(context, campaign.name, "CONC", campaign.rule, cases, std::sync::Arc::new(move || conc_case_strategy(profile, thorough)), run_case, false, (context.workers / 3).max(2));
+        outcome.reports.push(report);
+        if let Some((case, failure)) = found {
+            let history = failing_history.lock().unwrap().take().filter(|(hash, _)| *hash == case_hash(&case)).map(|(_, history)| history);
+            let replay = Replay { property: context.property.clone(), engine: "CONC".to_string(), campaign: campaign.name.to_string(), seed: context.seed,
+                case: serde_json::to_value(&case).unwrap(), policy: json!({"observed_history": history}), failure: Some(failure.clone()),
+                note: "concurrent case: not shrunk; `policy.observed_history` is the history that failed (re-checked offline by replay); replay also re-executes the program up to 150 times".to_string() };
+            outcome.violations.push(Violation { replay_path: write_replay(&replay), failure });
             break;
         }
     }
@@ -178,6 +246,15 @@ pub fn replay_file(property: &str, path: &str) -> i32 {
     };
     let result = match replay.engine.as_str() {
         "SEQ" => replay_seq(&replay),
+        "CONC" => decode_case::<crate::conc::ConcCase>(&replay.case).map(|case| {
+            // the stored failure is the observed one; try to reproduce it by re-executing
+            for _ in 0..50 {
+                let (result, _) = crate::conc::conc_case_result(&case, property, 3, std::time::Duration::from_secs(10), |_| false);
+                if result.failure.is_some() { return result.failure; }
+            }
+            println!("the program did not fail again in 150 executions; the recorded failing history is in the replay file (policy.observed_history)");
+            None
+        }),
         "ACK" => decode_case::<crate::ack::AckCase>(&replay.case).map(|case| crate::ack::run_ack_case(&case).1),
         "ACK-STRESS" => Ok(crate::ack::stress(replay.case["puts"].as_u64().unwrap_or(40_000), replay.seed).1),
         "SKETCH" => decode_case::<crate::sketch::SketchCase>(&replay.case).map(|case| crate::sketch::run_sketch_case(&case).1),
